@@ -384,7 +384,8 @@ def work_print_sweep(shard):
 # text -> number
 
 def digit_strings(tier):
-    out = []
+    # zero mantissas first: the value is zero whatever the exponent
+    out = ['0', '00', '0' * 20]
     if tier == 'quick':
         out += [str(i) for i in range(1, 100)]
         out += ['105', '125', '999', '101', '256', '512', '750']
